@@ -158,15 +158,44 @@ def run_cfg(ctx, p, cfg):
             cf = p.fn(clo[0][1])
             ks = cf.calls("serde_core::ser::SerializeMap::serialize_key")
             inner = p.closures_of(m.path)
-            vs = [c for g2 in inner + [cf] for c in g2.calls("serde_core::ser::SerializeMap::serialize_value")]
+            scope = {g2.path: g2 for g2 in inner + [cf]}
+            vs = [c for g2 in scope.values() for c in g2.calls("serde_core::ser::SerializeMap::serialize_value")]
             okc = len(ks) == 1 and len(vs) == 1 and deep_strip(ks[0].arg(1)) == ("param", 2)
             r.require(okc, "key-and-value-per-entry", fn=cf, detail="serialize_key(k) and serialize_value(v) once per MDC entry")
-            # first error kept: the key call is control-dependent on err being Ok, and err is assigned from the and_then result
-            gate = [(si, al) for sb, si, al in cf.conditions(ks[0].block) if strip(si.discr)[0] == "discr"]
-            r.require(bool(gate) and all({si.label(v) for v, _ in al} == {"Ok"} for si, al in gate), "stops-after-first-error", fn=cf, detail="entries are serialised only while no error occurred")
-        # the collected error is propagated before end()
+
+            def clean_gate(g_, block):
+                """tests on the way to `block` that require 'no error so far': a match on a Result/Option being Ok/None/Continue,
+                or is_err()/is_some() false, is_ok()/is_none() true"""
+                out = []
+                for sb, si, al in g_.conditions(block):
+                    labs = {si.label(v) for v, _ in al}
+                    d = strip(si.discr)
+                    if d[0] == "discr" and labs and labs <= {"Ok", "None", "Continue"}:
+                        out.append((si, labs))
+                    elif d[0] == "call" and d[1].rsplit("::", 1)[-1] in ("is_err", "is_some") and labs == {False}:
+                        out.append((si, labs))
+                    elif d[0] == "call" and d[1].rsplit("::", 1)[-1] in ("is_ok", "is_none") and labs == {True}:
+                        out.append((si, labs))
+                return out
+            # first error kept: the key call is control-dependent on the accumulator still being clean
+            if ks:
+                r.require(bool(clean_gate(cf, ks[0].block)), "stops-after-first-error", fn=cf, detail="entries are serialised only while no error occurred")
+            if vs and ks and vs[0].fn is cf:
+                kgate = [1 for si, labs in clean_gate(cf, vs[0].block) if any(x[0] == "call" and len(x) > 3 and x[3] == ks[0].block for x in walk(si.discr))]
+                r.require(bool(kgate), "value-only-after-key-succeeded", fn=cf, detail="serialize_value is control-dependent on serialize_key's Ok")
+        # the collected error is propagated before end(): `err?`, or end() only on the accumulator's clean edge
         tb = [c for c in m.calls("core::ops::try_trait::Try::branch") if m.dominates(it.block, c.block) and m.dominates(c.block, en.block)]
-        r.require(len(tb) >= 1, "collected-error-propagated", fn=m, detail="`err?` between the iteration and map.end()")
+        guarded_end = False
+        for sb, si, al in m.conditions(en.block):
+            labs = {si.label(v) for v, _ in al}
+            d = strip(si.discr)
+            if m.dominates(it.block, sb) and ((d[0] == "discr" and labs and labs <= {"Ok", "None", "Continue"}) or
+                                               (d[0] == "call" and d[1].rsplit("::", 1)[-1] in ("is_err", "is_some") and labs == {False}) or
+                                               (d[0] == "call" and d[1].rsplit("::", 1)[-1] in ("is_ok", "is_none") and labs == {True})):
+                other = si.target_of("Err") if d[0] == "discr" and "Ok" in labs else (si.target_of("Some") if d[0] == "discr" and "None" in labs else None)
+                guarded_end = True
+        rets_err = [e for b, e in q.ret_assignments(m) if q.classify_ret(e) == "err"]
+        r.require(len(tb) >= 1 or (guarded_end and bool(rets_err)), "collected-error-propagated", fn=m, detail="the collected error is returned (`err?` or a match) and map.end() runs only without one")
         # no raw writes inside Serialize impls of the module
         raw = []
         for g in p.fns.values():
